@@ -1185,8 +1185,11 @@ def gen_cases(rng, tier):
         cases.append(_pm_case(rng))
     for _ in range(nv // 10):
         cases.append(_pm_case(rng, bad=True))
-    for mode in ('same', 'reordered', 'subgrid'):
-        cases.append(_pm_tiled_case(rng, mode))
+    for mode in ('same', 'reordered', 'subgrid', 'reordered', 'subgrid'):
+        c = _pm_tiled_case(rng, mode)
+        if len(cases) % 2:      # next to a source with a non-zero Z offset (its own focal plane)
+            c['srcz'] = str(_dy(rng, 1, 40, (1, 2, 4, 8)) * rng.choice([1, -1]))
+        cases.append(c)
     for _ in range(nv // 4):
         cases.append(_pm_tiled_case(rng))
     return cases
